@@ -37,10 +37,15 @@ META = {
 }
 
 
+# of the transitions that resolve a collision every THIN-th (residue chosen by the seed) is replayed as well
+THIN = {"MC_replica_quick.cfg": 16, "MC_replica_full.cfg": 400, "MC_replica_upd2.cfg": 16, "MC_replica_m3.cfg": 16}
+
+
 def run(ctx):
     quick = ctx.tier == "quick"
-    ctx.rule = ("one case = one reachable replica state: its BFS path executed on a real *ring.Desc (every step compared) and the final "
-                "descriptor queried through real ring clients, or one recorded Merge call accepted by the trace specification; "
+    ctx.rule = ("one case = one reachable replica state (its BFS path) or one sampled collision-resolving transition (the path to its "
+                "source + the step), executed on a real *ring.Desc (every step compared) with the final descriptor queried through "
+                "real ring clients, or one recorded Merge call accepted by the trace specification; "
                 "non-trivial = some step of the path resolved a token collision / the recorded call changed the receiver; "
                 "distinct = distinct <<descriptor, clock>> states of RingReplica")
     ctx.assumptions = ["the receiver of Merge is only ever produced by Merge starting from the empty descriptor (kv/memberlist usage)",
@@ -50,11 +55,14 @@ def run(ctx):
     ctx.exhaustive = True
 
     # ---- 1. TLC: invariants over all reachable descriptors, step rules on all transitions ------
-    runs = [("MC_replica_quick.cfg", 2)] if quick else [("MC_replica_quick.cfg", 2), ("MC_replica_full.cfg", 2), ("MC_replica_m3.cfg", 3)]
+    runs = [("MC_replica_quick.cfg", 2)] if quick else [("MC_replica_quick.cfg", 2), ("MC_replica_upd2.cfg", 2), ("MC_replica_m3.cfg", 3),
+                                                        ("MC_replica_full.cfg", 2)]
     path_files = []
     for cfg, m in runs:
-        r = rc.tlc_ok(ctx, "RingReplica", cfg, coverage=(not quick and cfg == "MC_replica_quick.cfg"))
-        if not quick and cfg == "MC_replica_quick.cfg" and r.coverage_zero:
+        think = THIN[cfg]
+        r = rc.tlc_ok(ctx, "RingReplica", cfg, coverage=(cfg == "MC_replica_full.cfg"),
+                      subst={"@@THINK@@": think, "@@THINR@@": ctx.seed % think})
+        if cfg == "MC_replica_full.cfg" and r.coverage_zero:
             raise verif.Inconclusive("actions with zero coverage in %s: %s" % (cfg, r.coverage_zero))
         if r.emitted == 0:
             raise verif.Inconclusive("%s emitted no paths" % cfg)
